@@ -311,6 +311,23 @@ def obligations(tier):
                                            desc="interval form (%s) with relative strand MINUS: result on the opposite strand, i-th base = base y-1-i of the "
                                                 "point-wise walk (whole-length intervals included), converts back to [x,y) on the relative minus strand" % which,
                                            bounds=bnd, examples=[_example(k, a, b, x=0, y=2, i=1)]))
+            if k == ks[-1]:
+                # many exons (size-dependent code paths start at some exon count): 17 exons, CDS from exon 3 to exon 15
+                K, A, B = 17, 2, 14
+                pre17 = shape_pre(K, A, B, min_gap=1)
+                base17 = dict(layout_params(K))
+                base17.update(co=int, cl=int)
+                e17 = _example(K, A, B, p=31)
+                for nm, f, extra, ex_extra in (("pos_commute", pos_commute, dict(p=int), dict(p=31)), ("rel_commute", rel_commute, dict(r=int, c=int), dict(r=40, c=7)),
+                                               ("utr_partition", utr_partition, dict(p=int), dict(p=31))):
+                    if quick and ((nm == "utr_partition" and strand is MINUS) or nm == "rel_commute"):
+                        continue  # rel_commute with 17 exons: ~1000 paths, thorough tier
+                    out.append(Obl("%s_k17_cds2-14_%s" % (nm, sn), f(K, A, B, strand), dict(base17, **extra), pre17, budget=3600 if nm == "rel_commute" else 900,
+                                   cost=900 if nm == "rel_commute" else 90,
+                                   desc="17-exon transcript, CDS from exon 3 to exon 15: " + {"pos_commute": "chr->CDS == chr->tx->CDS, conversions inverted, outside rejected",
+                                                                                             "rel_commute": "relative positions map to the block walk and back",
+                                                                                             "utr_partition": "5'UTR / CDS / 3'UTR partition the exons in order"}[nm],
+                                   bounds="17 exons (len>=1, introns>=1), unbounded ints", examples=[_example(K, A, B, **ex_extra)]))
             params = dict(layout_params(k))
             params["p"] = int
             out.append(Obl("introns_span_k%d_%s" % (k, sn), introns_span(k, strand), params,
